@@ -61,6 +61,7 @@ PROPS["C11"] = {
         lane("TestRandom", "random", 30000, 150000, shards=8),
         lane("TestMutate", "mutate", 15000, 60000, shards=16, must_classes=["parse-error"]),
         lane("TestCorpus", "corpus", 5000, 20000, shards=4, must_classes=["accepted"]),
+        lane("TestDeep", "deep", 0, 0, norapid=True, shards=1, must_classes=["shape:array", "shape:block"]),
         fuzz("FuzzParse"),
     ],
 }
